@@ -8,10 +8,11 @@ TARGETS = ["Base/Corr.vo", "C12/Spec.vo", "C12/ModelS.vo", "C12/ModelM.vo", "C12
            "C12/ModelJ.vo", "C12/ProofsJ.vo", "C12/ProofsRefuted3.vo", "C12/CorrJ.vo",
            "C12/ModelConv.vo", "C12/ProofsConv.vo", "C12/ModelIt.vo", "C12/ProofsIt.vo", "C12/CorrA.vo", "C12/Props.vo",
            "C12/ModelArgs.vo", "C12/ProofsArgs.vo", "C12/GenArgs.vo", "C12/ProofsArgsRepo.vo", "C12/CorrO.vo",
-           "C12/ModelIS.vo", "C12/ProofsIS.vo", "C12/GenInSitu.vo", "C12/ProofsISRepo.vo", "C12/PropsArgs.vo"]
-PROPS = ["C12/Props.v", "C12/PropsArgs.v"]
+           "C12/ModelIS.vo", "C12/ProofsIS.vo", "C12/GenInSitu.vo", "C12/ProofsISRepo.vo", "C12/PropsArgs.vo",
+           "C12/ModelCtor.vo", "C12/ProofsCtor.vo", "C12/CorrK.vo", "C12/GenCtor.vo", "C12/ProofsCtorRepo.vo", "C12/PropsCtor.vo"]
+PROPS = ["C12/Props.v", "C12/PropsArgs.v", "C12/PropsCtor.v"]
 STREAMS = [("scases", "S"), ("jcases", "J"), ("ccases", "C"), ("icases", "I"), ("mcases", "M"), ("vcases", "V"), ("ecases", "E"), ("hcases", "H"),
-           ("ocases", "O")]
+           ("ocases", "O"), ("kcases", "K")]
 PARTIAL = (
     "Proved in Coq, for ALL carriers / register files / heaps / histories, about the models coq/C12/ModelS.v (scalars and dense "
     "vectors of magic scalars as object ids over C01's register file), coq/C12/ModelM.v (dense matrix handles over C10's storage "
@@ -101,9 +102,33 @@ PARTIAL = (
     "assignment to a field of a variable named inSitu (the translator fails the run if a variable of type InSitu has another name), "
     "e.g. through a method of a buffer that keeps its argument (covered by stream H's storage-identity walk at run time); F1 (what the "
     "bodies WRITE) remains runtime evidence. "
+    "(12, round 7) FLAG-DEPENDENT COPIES: coq/C12/ModelCtor.v models a body as a straight-line list of d := s.Clone() / d := s / "
+    "'rewrite x in place with ANY function of its old contents' over containers = lists of cells, the body chosen by a boolean; proved "
+    "for EVERY body accepted by ctor_safe (no in-place write through a variable that may hold a cell that existed at entry; the returned "
+    "variable holds only cells allocated by the body), EVERY heap and environment and BOTH values of the flag: no existing cell is written, "
+    "the result's cells are new, every object that existed at entry reads as before, a later change confined to old cells is invisible "
+    "through the result and one confined to new cells is invisible through every old object (accepted_body_writes_no_existing_cell, "
+    "flagged_constructor_is_a_deep_copy); the bodies of generic.NewHmmProbabilityVector / NewHmmTransitionMatrix / NewChmmTransitionMatrix "
+    "/ NewHhmmTransitionMatrix (flag isLog) and of bfgs.Run's use of the option-carried Hessian{B0} (flag: B0 singular) are accepted "
+    "whatever the transformers compute; 'clone on the !isLog branch only' and 'regularise the caller's B0 on the singular fallback' are "
+    "accepted on the commonly taken branch, rejected on the other and refuted there by concrete executions. Stream K ties it: the four "
+    "constructors x isLog x 3 argument kinds (24 cases on every run) with the argument observed before / after, the result before / after "
+    "the argument is overwritten, the argument before / after the result is overwritten and re-normalised, storage overlap from the "
+    "reflection walk, all predicted by running the model (CorrK.kcheck; the clone-on-one-branch model is rejected by a recorded run); "
+    "stream E additionally compares isLog=false on p with isLog=true on Log(p) bit-exactly and the result's own Clone*(); every run starts "
+    "with ~100 DIRECTED DEGENERATE cases (entry/edge.go: singular, zero, rank-one, NaN, subnormal-pivot, dimension-mismatched matrices as "
+    "main inputs AND as bfgs's Hessian{B0}, two option masks each) so that fallback / error paths are reached deterministically. The table of "
+    "the 5 constructors of statistics/generic with a container parameter and an isLog flag is REGENERATED from the Go source by go2coq_c12k "
+    "(go/ast; every use of a tracked container that is not a Clone, an alias or a whitelisted reader becomes an arbitrary in-place "
+    "transformer; anything outside the grammar fails the run) on every run and decided by vm_compute "
+    "(repo_flagged_constructors_are_deep_copies); a rejected constructor is reported with its source position. NOT in "
+    "ModelCtor: bfgs.Run's body is hand-transcribed; stream K runs the hand-written hmm_ctor_coded, not the regenerated lists; "
+    "constructors outside statistics/generic or with another flag name are not found by the translator; control flow inside the transformers, "
+    "error returns (the constructor's error path returns no object); iterative entry points (eigensystem, qrAlgorithm, svd, saga, blahut) "
+    "are excluded from the degenerate list (no termination guarantee within the deadline). "
     "NOT proved / partial: the entry-point theorems are about the generic wrapper with an abstract body (body_frames / body_ok); that each "
     "concrete algorithm of /repo/algorithm is such a body is NOT proved — for all 29 Run* entry points x 1155 option combinations "
-    "and the 42 distribution constructors the harness's before/after snapshot comparison (evaluated in Coq, bit-exact) is the "
+    "and the 42 distribution constructors + 4 flagged generic constructors the harness's before/after snapshot comparison (evaluated in Coq, bit-exact) is the "
     "supporting runtime evidence, not a proof; likewise stream H (all 15 entry points that take an InSitu struct x all ordered "
     "pairs of per-call option settings on an initially empty struct + caller-supplied buffers / the input itself as buffer, 2-4 "
     "calls, fresh inputs per call, every call under a 2 s deadline; 13 estimators through SetData / Estimate / GetEstimate / "
@@ -200,6 +225,62 @@ def translate_args(ctx):
     ctx.args_insitu_text = newi
     ctx.args_roots = report["roots"]
     return report, new
+
+
+def translate_ctor(ctx):
+    """Round 7: regenerate the flagged-constructor bodies (ModelCtor statement lists) from vlib.REPO with go2coq_c12k."""
+    tool, tlog = vlib.build_tool("go2coq_c12k", "go2coq_c12k")
+    if tool is None:
+        ctx.oblige(1, 0)
+        ctx.violation({"obligation": "build of go2coq_c12k", "log": tlog[-1500:]}, False, "the constructor translator does not build")
+        return None
+    gen = os.path.join(ctx.dir, "GenCtor.v")
+    rep = os.path.join(ctx.dir, "ctor_report.json")
+    rc, out = vlib.sh([tool, "-repo", vlib.REPO, "-out", gen, "-report", rep], timeout=120, env=vlib.go_env())
+    if rc != 0 or not os.path.exists(gen) or not os.path.exists(rep):
+        ctx.oblige(1, 0)
+        ctx.violation({"obligation": "go2coq_c12k run", "log": out[-1500:]}, False,
+                      "tie lost: the constructor translator failed on the library source")
+        return None
+    report = json.load(open(rep))
+    ctx.cov.setdefault("translator", {})["go2coq_c12k"] = {"functions": report["names"], "unsupported": report["unsupported"]}
+    ctx.oblige(1, 1 if report.get("ok") else 0)
+    if not report.get("ok"):
+        ctx.violation({"obligation": "translation of the flagged constructors (go2coq_c12k)", "unsupported": report["unsupported"]}, False,
+                      "tie lost: a constructor of statistics/generic uses its container argument outside the translated grammar "
+                      "(or none was found): %s" % "; ".join(report["unsupported"] or [])[:600])
+    new = open(gen).read()
+    committed_path = os.path.join(vlib.COQ, "C12", "GenCtor.v")
+    committed = open(committed_path).read() if os.path.exists(committed_path) else ""
+    if new != committed:
+        if os.path.abspath(vlib.REPO) == "/repo":
+            open(committed_path, "w").write(new)
+            ctx.log("GenCtor.v regenerated from %s differs from the previous one: proofs are re-checked against it" % vlib.REPO)
+        else:
+            ctx.log("GenCtor.v regenerated from %s differs from the committed one (redirected run: decided by the shard below)" % vlib.REPO)
+    return report, new
+
+
+def eval_ctor(ctx, report, new):
+    """Decide the regenerated constructor table in Coq (independent of the committed copy); needs ProofsCtor.vo."""
+    body = new.split("Import ListNotations.", 1)[1]
+    shard = os.path.join(ctx.dir, "ctor_regen_0.v")
+    open(shard, "w").write(
+        "From Coq Require Import List Arith.\nFrom ADV Require Import C12.ModelCtor C12.ProofsCtor.\nImport ListNotations.\n" + body +
+        "\nDefinition M : list nat := Eval vm_compute in (ctor_bad_from 0 (repo_ctors (fun (_ : nat) (xs : list nat) => xs))).\nPrint M.\n")
+    res = vlib.eval_shards([shard])[0]
+    ctx.oblige(1, 1 if res["ok"] else 0)
+    if res["mism"] is None:
+        ctx.violation({"obligation": "evaluation of ctor_safe_both on the regenerated constructor table", "coqc_error": res["error"]}, False,
+                      "the regenerated constructor table did not evaluate")
+        return []
+    sites = []
+    for i in res["mism"]:
+        fn = report["functions"][i] if i < len(report["functions"]) else {}
+        sites.append({"function": fn.get("name"), "pos": fn.get("pos"), "stmts": [(s["coq"], s["pos"], s["flag"]) for s in fn.get("stmts", [])]})
+    ctx.log("flagged constructors: %d regenerated (%s); ctor_safe_both %s" % (
+        len(report["functions"]), ", ".join(report["names"]), "accepted" if not sites else "REJECTS %s" % [(s["function"], s["pos"]) for s in sites]))
+    return sites
 
 
 def eval_args(ctx, report, new):
@@ -333,12 +414,16 @@ def run(ctx):
         "reachable from an object, library types only) as the definition of storage identity; SHA-256 digests of snapshots"]
     ctx.cov["partial"] = PARTIAL
     tr = translate_args(ctx)
+    trk = translate_ctor(ctx)
     ok, failures = vlib.proof_stage(ctx, TARGETS, PROPS)
     arg_sites = eval_args(ctx, *tr) if tr else []
+    ctor_sites = eval_ctor(ctx, *trk) if trk else []
     thms = vlib.theorem_names(os.path.join(vlib.COQ, "C12/Props.v"))
     thms_args = vlib.theorem_names(os.path.join(vlib.COQ, "C12/PropsArgs.v"))
+    thms_ctor = vlib.theorem_names(os.path.join(vlib.COQ, "C12/PropsCtor.v"))
     if ok:
-        ctx.cov["print_assumptions"] = vlib.print_assumptions("C12", [("C12.Props", thms), ("C12.PropsArgs", thms_args)], ctx.dir)
+        ctx.cov["print_assumptions"] = vlib.print_assumptions("C12", [("C12.Props", thms), ("C12.PropsArgs", thms_args),
+                                                                      ("C12.PropsCtor", thms_ctor)], ctx.dir)
     binary, blog = vlib.build_harness("c12")
     if binary is None:
         ctx.violation({"obligation": "build of harness/c12 against the library", "log": blog[-3000:]}, False,
@@ -346,7 +431,7 @@ def run(ctx):
         return
     n = 160 if ctx.tier == "quick" else 1600
     bad = corr(ctx, binary, n)
-    handed = [c for tag in ("O", "C", "I", "J", "H", "S", "M", "V", "E") for c in bad.get(tag, [])]
+    handed = [c for tag in ("O", "K", "C", "I", "J", "H", "S", "M", "V", "E") for c in bad.get(tag, [])]
     finds = hunt(ctx, binary, handed)
     unknown = []
     for f in finds:
@@ -360,11 +445,12 @@ def run(ctx):
     # E cases flagged by Coq that are not covered by a known finding
     e_unknown = [c for c in bad.get("E", []) if not is_known({"stream": "E", "case": c, "failure": ""})]
     h_unknown = [c for c in bad.get("H", []) if not is_known({"stream": "H", "case": c, "failure": ""})]
-    model_bad = [c for tag in ("C", "I", "S", "J", "M", "V") for c in bad.get(tag, [])]
+    model_bad = [c for tag in ("C", "I", "S", "J", "M", "V", "K") for c in bad.get(tag, [])]
     for f in unknown[:5]:
         ctx.violation({"case": f["case"], "failure": f["failure"], "site": f["site"], "at": f.get("at"),
                        "broken": [x["target"] for x in failures] + (["correspondence C12"] if model_bad else []) +
-                                 (["%s: %s %s" % ("ModelIS.stores_ok" if s.get("kind") == "insitu" else "ModelArgs.args_safe", s["function"], s["pos"]) for s in arg_sites])}, True,
+                                 (["%s: %s %s" % ("ModelIS.stores_ok" if s.get("kind") == "insitu" else "ModelArgs.args_safe", s["function"], s["pos"]) for s in arg_sites]) +
+                                 (["ModelCtor.ctor_safe_both: %s %s" % (s["function"], s["pos"]) for s in ctor_sites])}, True,
                       "copy/frame property violated on the implementation (%s): %s" % (f["site"], f["failure"]))
     if not unknown:
         for c in e_unknown[:3]:
@@ -384,6 +470,10 @@ def run(ctx):
             ctx.violation({"obligation": "ModelArgs.args_safe on the program regenerated from the source", "sites": a_sites}, False,
                           "an entry point writes through its option list (%s), but no call that changes the caller's slice was found" % (
                               "; ".join("%s %s: %s" % (s["function"], s["pos"], s["text"]) for s in a_sites[:4])))
+        if ctor_sites and not any(c.get("entry", "").startswith("generic.") for c in bad.get("E", []) + bad.get("K", [])):
+            ctx.violation({"obligation": "ModelCtor.ctor_safe_both on the constructor table regenerated from the source", "sites": ctor_sites}, False,
+                          "a constructor of statistics/generic may write through / return its caller's container on one value of isLog (%s), "
+                          "but no call that shows it was found" % "; ".join("%s %s" % (s["function"], s["pos"]) for s in ctor_sites[:4]))
         if i_sites and not bad.get("H"):
             ctx.violation({"obligation": "ModelIS.stores_ok on the store table regenerated from the source", "sites": i_sites}, False,
                           "an entry point stores a reference to a caller's object into the InSitu struct (%s), but no call sequence in "
